@@ -126,6 +126,8 @@ class Body:
         self._mut = None
         self._ba = None
         self.__dict__.pop("_rl_cache", None)
+        self.__dict__.pop("_pw", None)
+        self.__dict__.pop("_assert_guard", None)
 
     def _split_reassigned(self):
         """normal form of the MIR used by every analysis: materialised booleans threaded (purlsa.thread), re-assigned user
@@ -446,8 +448,25 @@ class Body:
     def resolve_local(self, local, _stack=None):
         t = self._resolve_local(local, _stack)
         if local in self.mut_locals() and t[0] not in ("arg", "cycle"):
+            if local in self.partially_written():
+                return ("var", local, t, "pw")     # some field is assigned directly: the initial value is not the whole story
             return ("var", local, t)
         return t
+
+    def partially_written(self):
+        """locals one of whose fields is assigned directly (`x.f = ..`, not through a `&mut` borrow)"""
+        pw = self.__dict__.get("_pw")
+        if pw is None:
+            pw = set()
+            for bl in self.blocks:
+                for st in bl["stmts"]:
+                    if st["s"] == "assign" and st["place"]["proj"] and not any(p["p"] == "deref" for p in st["place"]["proj"]):
+                        pw.add(st["place"]["l"])
+                t_ = bl["term"]
+                if t_["t"] == "call" and t_["dest"]["proj"] and not any(p["p"] == "deref" for p in t_["dest"]["proj"]):
+                    pw.add(t_["dest"]["l"])
+            self.__dict__["_pw"] = pw
+        return pw
 
     def _resolve_local(self, local, _stack=None):
         # memoised when the term is closed (contains no cycle marker, whose meaning depends on the resolution stack)
